@@ -395,8 +395,10 @@ def run(chk, replay=None):
         # typically: a data member of a load target whose type has no snapshot rule
         msg = exe_err
         m = re.search(r"[^\n]*(no snapshot rule|not enumerated|hashed container)[^\n]*", msg)
+        ty = re.findall(r"value\(const T&\) \[with T = ([^\]\n]+)\]", msg)
         chk.violation("harness c12_load does not compile against the current tree: the deep snapshot cannot cover "
-                      "every data member of the load targets: " + (m.group(0) if m else msg[-1500:]),
+                      "every data member of the load targets: " + (m.group(0).strip() if m else msg[-1500:]) +
+                      (" — member type(s) on the way: " + " <- ".join(ty[:4]) if ty else ""),
                       {"broken": "deep snapshot (harness/c12_snap.h + generated c12_members_gen.h)",
                        "compiler": msg[-3000:]}, no_input=True)
         return chk.finish(level="proof", checker_cmd="g++ harness/c12_load.cc", rule="(harness does not build)",
